@@ -25,7 +25,7 @@ def canon(line):
     return " | ".join([head + (" " + raw_ops if raw_ops else "")] + segs)
 
 
-def run_walks(seed, tier, label, n_quick, n_thorough, adversarial=False, strict=False, length=80, snap_after_svc=False, replay_model=True):
+def run_walks(seed, tier, label, n_quick, n_thorough, adversarial=False, strict=False, length=80, snap_after_svc=False, replay_model=True, profile=None):
     rng = Rng(seed, "walks:" + label)
     n = n_quick if tier == "quick" else n_thorough
     h = Proc([HARNESS_BIN], "harness")
@@ -35,7 +35,7 @@ def run_walks(seed, tier, label, n_quick, n_thorough, adversarial=False, strict=
             h.ask("session.reset")
             w = Walk(Rng(seed, f"walk:{label}:{i}"), h, adversarial=adversarial or (i % 3 == 2), strict_driver=strict,
                      length=rng.choice([40, length, length * 2, length * 4]), snap_after_svc=snap_after_svc or (i % 4 == 1),
-                     profile="backlog" if i % 5 == 3 else ("qos2tiny" if i % 5 == 4 else "default"))
+                     profile=profile(i) if profile else ("backlog" if i % 5 == 3 else ("qos2tiny" if i % 5 == 4 else "default")))
             w.run()
             walks.append(w)
     finally:
